@@ -6,6 +6,8 @@
 -/
 import Jence.Model.Fen
 import Jence.Props.C01
+import Jence.Lemmas.UciString
+import Jence.Lemmas.LegalMoves
 namespace Jence.Props.C05
 open Jence
 
@@ -60,6 +62,33 @@ theorem parseMove_accepts_exactly (g : Game) (s : String) :
   · rintro ⟨m, hm, hs⟩
     obtain ⟨m', h', _⟩ := parseMove_complete g s m hm hs
     simp [h']
+
+/-- **T5.2** In a consistent position in which the side not to move is not in check, no two different moves of the
+    generated list - in particular no two legal moves - have the same UCI string: the string fixes source square, target
+    square and promotion kind (`Lemmas/UciString.toUci_determines`: the 64 square names are distinct two-character strings,
+    the promotion letters distinct one-character strings, kernel-decided over the generated tables), and those fix the
+    move word (`smove_inj`). -/
+theorem uci_strings_distinct {g : Game} {b : Board} (wf : Wf g b) (nk : NoKingCapture g) (m1 m2 : Move)
+    (h1 : m1 ∈ generateMoves g true) (h2 : m2 ∈ generateMoves g true) (h : m1.toUci = m2.toUci) : m1 = m2 := by
+  have f1 := gen_fits wf nk true m1 h1
+  have f2 := gen_fits wf nk true m2 h2
+  exact smove_inj wf nk m1 m2 h1 h2
+    (toUci_determines m1 m2 f1.fromLt f1.toLt f2.fromLt f2.toLt (fun hp => ownP_lt (f1.promo hp).1) (fun hp => ownP_lt (f2.promo hp).1) h)
+
+/-- **T5.2/T5.3** every legal move is what its own UCI string parses to -/
+theorem parseMove_toUci {g : Game} {b : Board} (wf : Wf g b) (nk : NoKingCapture g) (m : Move) (hm : m ∈ legalValues g) :
+    parseMove g m.toUci = some m := by
+  obtain ⟨m', h', hs⟩ := parseMove_complete g m.toUci m hm rfl
+  have hm' := (parseMove_sound g m.toUci m' h').1
+  have e : m' = m := uci_strings_distinct wf nk m' m (List.mem_filter.1 hm').1 (List.mem_filter.1 hm).1 hs
+  rw [h', e]
+
+/-- the string of a legal move names the rules move it denotes: accepted strings correspond one to one to the legal moves
+    of the rules specification (with T1.3 `legal_refines`) -/
+theorem accepted_string_names_rules_move {g : Game} {b : Board} (wf : Wf g b) (nk : NoKingCapture g) (s : String) (m : Move)
+    (h : parseMove g s = some m) : smove m ∈ Spec.legalMoves (Spec.abs g) ∧ m.toUci = s := by
+  obtain ⟨hm, hs⟩ := parseMove_sound g s m h
+  exact ⟨(legal_refines wf nk _).2 ⟨m, hm, rfl⟩, hs⟩
 
 /-! ### The recorded history -/
 
